@@ -44,7 +44,7 @@ def _run(prog: Prog, async_conds: int, tv: Any, body_raises: bool, async_level: 
 def run_diff(kind: str, cmode: int, a0: int, b0: int, s0: int, i0: int, d1: int, a1: int, b1: int, br: bool,
              p0: bool, p1: bool, p2: bool, p3: bool, q0: bool, q1: bool, q2: bool,
              v0: bool, w0: bool) -> Tuple[bool, bool]:
-    cmode = conc(cmode, 0, 3)
+    cmode = conc(cmode, 0, 4)
     a0, b0, s0, i0, d1, a1, b1 = conc(a0, 0, 2), conc(b0, 0, 2), conc(s0, 0, 1), conc(i0, 0, 1), conc(d1, 0, 2), conc(a1, 0, 2), conc(b1, 0, 1)
     body_raises = True if br else False
     levels = _levels(kind, a0, b0, s0, i0, d1, a1, b1)
@@ -203,7 +203,7 @@ def harnesses(tier: str) -> List[H]:
     out = []  # type: List[H]
     kinds = ["func", "method"] if tier == "quick" else list(ASYNC_KINDS)
     for kind in kinds:
-        for cmode in (0, 1, 2, 3):
+        for cmode in (0, 1, 2, 3, 4):
             for d1 in ((0,) if kind == "func" else (0, 1, 2)):
                 a1_values = [None] if d1 != 2 else ([0, 1] if tier == "quick" else [0, 1, 2])
                 for a1 in a1_values:
@@ -227,7 +227,8 @@ def harnesses(tier: str) -> List[H]:
                                         "pre 0..2, post 0..2, snapshot 0..1{}; subclass level {}; body returns / raises".format(
                                             kind, ["plain", "coroutine functions (suspending)",
                                                    "plain functions returning coroutines",
-                                                   "plain functions returning non-coroutine awaitables"][cmode],
+                                                   "plain functions returning non-coroutine awaitables",
+                                                   "mixed within a group: coroutine functions at even positions, plain at odd"][cmode],
                                             ", invariant 0..1" if kind == "method" else "",
                                             ["absent", "not overriding", "overriding with %s own preconditions" % a1][d1]),
                                  family_size=18 * (2 if kind == "method" else 1) * (1 if d1 < 2 else 2) * 2))
